@@ -135,7 +135,7 @@ var idxKeys = []keySpec{
 var slashValues = []string{"Bob/x", "ibc/27A6", "7/1", "an/", "/"}
 
 func (s *isim) genIdxValue(rng *simcore.RNG, flavor string) string {
-	if s.cfg.Bool("f_slash") && rng.Bool(0.25) {
+	if s.cfg.Bool("f_slash") && flavor != "int" && rng.Bool(0.25) { // numeric attributes stay numeric: well-typed foreign queries must stay well-typed
 		return pick(rng, slashValues)
 	}
 	if flavor == "imix" {
@@ -528,23 +528,35 @@ func (s *isim) applyBlock(op simcore.Op) {
 	s.txs = append(s.txs, txs...)
 	e.Count("op.block")
 	e.Add("op.tx", int64(len(txs)))
-	// other subscribers must not be affected either (same oracle as pubsub mode, count only)
-	for j, c := range s.canaries {
-		if len(c.Out()) != s.npubs {
+	wedged := false
+	select {
+	case <-done:
+	default:
+		wedged = true
+	}
+	// other subscribers must not be affected (same oracle as pubsub mode, counts only): every
+	// canary holds every event published so far; while the publisher is stuck they must at least agree
+	if len(s.canaries) > 0 {
+		lo, hi := len(s.canaries[0].Out()), len(s.canaries[0].Out())
+		for _, c := range s.canaries {
+			if n := len(c.Out()); n < lo {
+				lo = n
+			} else if n > hi {
+				hi = n
+			}
+		}
+		if lo != hi || (!wedged && lo != s.npubs) {
 			sig := "lost-msg"
 			if s.poisoned {
 				sig = "lost-foreign-type-mismatch"
 			}
-			if len(c.Out()) > s.npubs {
+			if hi > s.npubs {
 				sig = "phantom-msg"
 			}
-			e.Fail("C19", sig, "after block %d a subscriber with query \"tm.event EXISTS\" (#%d, capacity %d) holds %d of the %d events published and was not told it was cancelled", h, j, canaryCap, len(c.Out()), s.npubs)
-			s.broken = true
+			e.Fail("C19", sig, "after block %d subscribers with query \"tm.event EXISTS\" (capacity %d) hold between %d and %d of the %d events published and were not told they were cancelled", h, canaryCap, lo, hi, s.npubs)
 		}
 	}
-	select {
-	case <-done:
-	default:
+	if wedged {
 		s.wedged = true
 		e.Fail("C19", "publish-blocked"+s.suffix(), "publishing the events of block %d (%d txs) never completes: the event bus is stuck (the indexer service stopped reading its unbuffered subscriptions)", h, len(txs))
 		return
